@@ -363,6 +363,17 @@ func (e *Engine) collectionModel(st *State, fn *ssa.Function, args []Val, site s
 		st.assume(fmt.Sprintf("(= %s (select %s %s))", was, keys(), kk))
 		setKeys(fmt.Sprintf("(store %s %s true)", keys(), kk))
 		k(st, []Val{term(fmt.Sprintf("(not %s)", was), tBool)})
+	case "LoadAndDelete":
+		if !hasVal || len(args) != 2 {
+			return false
+		}
+		kk := key(1)
+		was := e.S.Fresh("was_present", "Bool")
+		st.assume(fmt.Sprintf("(= %s (select %s %s))", was, keys(), kk))
+		v := fmt.Sprintf("(ite %s (select %s %s) %s)", was, vals(), kk, e.zero(elemT))
+		lv := e.loaded(st, term(v, elemT))
+		setKeys(fmt.Sprintf("(store %s %s false)", keys(), kk))
+		k(st, []Val{lv, term(was, tBool)})
 	case "Contains":
 		if len(args) != 2 {
 			return false
